@@ -60,7 +60,8 @@ def shape(fn):
         if bj not in live:
             continue
         rv = st.get('rv', {})
-        if not ('use' in rv or 'ref' in rv):
+        # data movement only: copies, borrows, building / taking apart tuples (`let (a, b) = (*self, *rhs)`); no arithmetic
+        if not ('use' in rv or 'ref' in rv or (rv.get('agg') == 'tuple')):
             return None, 'statement %s' % (list(rv.keys()),)
     # where does the result go?
     dest = t['dest']
